@@ -1234,4 +1234,103 @@ theorem cycle_ok (bs : List Binding) (rt : Rt) (drv : List DrvIn) (dbg : Dbg) (t
         | some pe => simp [hoe, failWith] at h
         | none => exact ⟨by simp, trivial, trivial, rfl, rfl⟩
 
+
+/-! ### `AT` declarations: layout of the leaves -/
+
+theorem array_leaves (t : Ty) : ∀ (len off : Nat),
+    (List.range len).map (fun k => (off + k * t.bytes, t)) = fieldOffsets (List.replicate len t) off := by
+  intro len
+  induction len with
+  | zero => intro off; rfl
+  | succ n ih =>
+    intro off
+    rw [List.range_succ_eq_map, List.map_cons, List.map_map, List.replicate_succ, fieldOffsets]
+    simp only [Nat.zero_mul, Nat.add_zero, List.cons.injEq, true_and]
+    rw [← ih (off + t.bytes)]
+    apply List.map_congr_left
+    intro k _
+    simp only [Function.comp, Nat.succ_eq_add_one, Nat.add_mul, Nat.one_mul]
+    congr 1
+    omega
+
+/-- Every covered shape lays its leaves out one after the other. -/
+theorem leaves_eq (sh : Shape) : sh.leaves = fieldOffsets sh.tys 0 := by
+  cases sh with
+  | elem t => rfl
+  | array len t =>
+    have := array_leaves t len 0
+    simp only [Nat.zero_add] at this
+    exact this
+  | struct fs => rfl
+
+theorem ioSize_of_expected (t : Ty) (h : (expectedSize t).isSome = true) :
+    ∃ sz, t.ioSize? = some sz ∧ expectedSize t = some sz ∧ sz.bytes = t.bytes := by
+  cases t <;> simp [expectedSize] at h <;> simp [Ty.ioSize?, expectedSize, Size.bytes, Ty.bytes]
+
+theorem offsetAddress_props (base : Addr) (off : Nat) (sz : Size) (hbit : base.bit ≤ 7) :
+    (offsetAddress base off sz).valid = true ∧ (offsetAddress base off sz).size = sz ∧
+    (offsetAddress base off sz).area = base.area ∧ (offsetAddress base off sz).byte = base.byte + off := by
+  unfold offsetAddress
+  split
+  · rename_i h
+    subst h
+    refine ⟨?_, rfl, rfl, ?_⟩
+    · simp only [Addr.valid, Addr.flat, List.length_cons, List.length_nil]
+      simp
+      omega
+    · simp only
+      omega
+  · rename_i h
+    refine ⟨?_, rfl, rfl, rfl⟩
+    cases sz <;> simp_all [Addr.valid, Addr.flat]
+
+/-- Bindings of consecutively laid out leaves: well typed, in the base's area, starting at or after
+`base.byte + off`, pairwise disjoint, targets `first + k, first + k + 1, …`. -/
+theorem expandLeaves_props (first : Nat) (base : Addr) (hbit : base.bit ≤ 7) (tys : List Ty) :
+    ∀ (off k : Nat) (bs : List Binding), (∀ t ∈ tys, (expectedSize t).isSome = true) →
+    expandLeaves first base (fieldOffsets tys off) k = some bs →
+    (∀ b ∈ bs, b.wellTyped = true ∧ b.addr.area = base.area ∧ base.byte + off ≤ b.addr.byte) ∧
+    bs.Pairwise (fun b b' => b.addr.disjoint b'.addr = true) ∧
+    bs.map (·.target) = (List.range tys.length).map (fun j => Target.ref (first + (k + j))) := by
+  induction tys with
+  | nil =>
+    intro off k bs _ h
+    simp only [fieldOffsets, expandLeaves, Option.some.injEq] at h
+    subst h
+    simp
+  | cons t tys ih =>
+    intro off k bs h17 h
+    obtain ⟨sz, hsz, hexp, hbytes⟩ := ioSize_of_expected t (h17 t (by simp))
+    simp only [fieldOffsets, expandLeaves, hsz] at h
+    cases hrest : expandLeaves first base (fieldOffsets tys (off + t.bytes)) (k + 1) with
+    | none => simp [hrest] at h
+    | some bs' =>
+      simp only [hrest, Option.some.injEq] at h
+      subst h
+      obtain ⟨h1, h2, h3⟩ := ih (off + t.bytes) (k + 1) bs' (fun t' ht' => h17 t' (by simp [ht'])) hrest
+      obtain ⟨p1, p2, p3, p4⟩ := offsetAddress_props base off sz hbit
+      refine ⟨?_, ?_, ?_⟩
+      · intro b hb
+        simp only [List.mem_cons] at hb
+        rcases hb with hb | hb
+        · subst hb
+          refine ⟨?_, p3, by rw [p4]; exact Nat.le_refl _⟩
+          simp [Binding.wellTyped, hexp, p2, p1]
+        · obtain ⟨q1, q2, q3⟩ := h1 b hb
+          exact ⟨q1, q2, by omega⟩
+      · rw [List.pairwise_cons]
+        refine ⟨?_, h2⟩
+        intro b' hb'
+        obtain ⟨_, _, q3⟩ := h1 b' hb'
+        simp only [Addr.disjoint, p2, p4, Bool.or_eq_true, decide_eq_true_eq]
+        left; left; right
+        omega
+      · rw [List.map_cons, h3, List.length_cons, List.range_succ_eq_map, List.map_cons, List.map_map]
+        simp only [Nat.add_zero, List.cons.injEq, true_and]
+        apply List.map_congr_left
+        intro j _
+        simp only [Function.comp, Nat.succ_eq_add_one]
+        congr 2
+        omega
+
 end TrustVerif.C07
